@@ -358,7 +358,7 @@ def cases(tier, seed):
                 if tier == 'quick' and ws > 4 and w > 5:
                     continue
                 out.append({'item': 'shift_wire', 'kind': kind, 'wa': w, 'ws': ws})
-            for k in range(1, w):
+            for k in range(0, w + 2):
                 out.append({'item': 'shift_const', 'kind': kind, 'wa': w, 'k': k})
     for w in ([1, 2, 3, 5, 6, 8] if tier == 'quick' else [1, 2, 3, 4, 5, 6, 7, 8, 9, 12, 17]):
         for ws in range(1, 6):
